@@ -653,6 +653,103 @@ def drv_formula(c, ctx, col):
 
 # ---------------------------------------------------------------------------
 
+# ---------------------------------------------------------------------------
+# histories on ONE contrast instance: a Contrasts object carries options, not results - any sequence of calls with
+# different level counts / flags must give what a fresh instance gives (= the reference) at every step
+
+HIST_SPECS = [{"kind": "treatment", "base": None}, {"kind": "treatment", "base": 0}, {"kind": "SAS", "base": None}, {"kind": "sum"},
+              {"kind": "helmert", "reverse": True, "scale": False}, {"kind": "helmert", "reverse": False, "scale": True},
+              {"kind": "diff", "backward": True}, {"kind": "diff", "backward": False}, {"kind": "poly", "scores": None}]
+HIST_OPS = ["coding", "coding-sparse", "coding-full", "coefficient", "apply"]
+
+
+def hist_step(con, op, levels):
+    n = len(levels)
+    if op == "coding":
+        return dense(con.get_coding_matrix(levels, reduced_rank=True, sparse=False))
+    if op == "coding-sparse":
+        return dense(con.get_coding_matrix(levels, reduced_rank=True, sparse=True))
+    if op == "coding-full":
+        return dense(con.get_coding_matrix(levels, reduced_rank=False, sparse=False))
+    if op == "coefficient":
+        return dense(con.get_coefficient_matrix(levels, reduced_rank=True, sparse=False))
+    return dense(con.apply(pandas.DataFrame(numpy.eye(n), columns=levels), levels=levels, reduced_rank=True, output="pandas"))
+
+
+def hist_expected(spec, op, n):
+    ref_fl, ref_ex, ref_hyp = ref_for(spec, n)
+    coding = arr(ref_fl, n - 1)
+    if op in ("coding", "coding-sparse", "apply"):
+        return coding
+    if op == "coding-full":
+        return numpy.eye(n)
+    if ref_hyp is not None:
+        return arr([[float(x) for x in r] for r in ref_hyp], n)
+    return numpy.vstack([numpy.full((1, n), 1.0 / n), coding.T])
+
+
+def drv_instance_history(c, ctx, col):
+    spec = c.pick(HIST_SPECS)
+    d = 2 + c.upto(ctx["D"] - 2)
+    steps = [(c.pick(ctx["ns"]), c.pick(HIST_OPS)) for _ in range(d)]
+    if len({n for n, _ in steps}) < 2 and len({o for _, o in steps}) < 2:
+        raise Skip()      # the same call twice
+    all_levels = list("abcdefgh")
+    con = build(spec, all_levels)   # an explicit base is level 'a', present in every level list
+    txt = render(spec, all_levels)
+    where = "instance-history %s: %s" % (txt, " -> ".join("%s(n=%d)" % (o, n) for n, o in steps))
+    rep = Reporter(col, where, {"contrast": repr(con), "steps": steps,
+                                "repro": "p = %r; " % (con,) + "; ".join("p.get_coding_matrix(list('abcdefgh')[:%d])" % n for n, _ in steps)})
+    col.interesting()
+    col.sample({"contrast": txt, "steps": steps})
+    col.state((txt, tuple(steps)))
+    tol = TOL if spec["kind"] == "poly" else TOL_EXACT
+    for i, (n, op) in enumerate(steps):
+        levels = all_levels[:n]
+        want = hist_expected(spec, op, n)
+        try:
+            got = hist_step(con, op, levels)
+        except Exception as e:  # noqa
+            rep(False, "instance-history", "step %d %s(n=%d) on the re-used instance raised %s: %s" % (i + 1, op, n, type(e).__name__, str(e)[:100]))
+            return
+        t = TOL if op == "coefficient" else tol
+        if not rep(got.shape == want.shape and close(got, want, t), "instance-history",
+                   "step %d %s(n=%d) on the re-used instance differs from a fresh instance / the reference" % (i + 1, op, n),
+                   got=got.tolist(), want=want.tolist()):
+            return
+
+
+def drv_shared_instance_formula(c, ctx, col):
+    """one contrast object shared by two factors with different level counts: C(A, p) + C(B, p), p in the context"""
+    from formulaic import model_matrix
+    spec = c.pick([s_ for s_ in HIST_SPECS if s_.get("base") is None])
+    na = 1 + c.upto(ctx["nmax"] - 1)
+    nb = 1 + c.upto(ctx["nmax"] - 1)
+    output = c.pick(["pandas", "sparse"])
+    la, lb = list("abcde")[:na], list("vwxyz")[:nb]
+    con = build(spec, la)
+    txt = render(spec, la)
+    rows = [(a, b) for a in la for b in lb]
+    df = pandas.DataFrame({"A": pandas.Series([r[0] for r in rows], dtype=object), "B": pandas.Series([r[1] for r in rows], dtype=object)})
+    where = "shared instance p = %s in 'C(A, p) + C(B, p)', %d and %d levels, output=%s" % (txt, na, nb, output)
+    rep = Reporter(col, where, {"contrast": repr(con), "levels_A": la, "levels_B": lb, "output": output,
+                                "repro": "p = %r; model_matrix('C(A, p) + C(B, p)', df, context={'p': p}) with %d levels in A and %d in B" % (con, na, nb)})
+    if na != nb:
+        col.interesting()
+    col.sample({"contrast": txt, "levels_A": na, "levels_B": nb, "output": output})
+    col.state((txt, na, nb, output))
+    ca, cb = arr(ref_for(spec, na)[0], na - 1), arr(ref_for(spec, nb)[0], nb - 1)
+    want = numpy.hstack([numpy.ones((len(rows), 1)), expected_rows([r[0] for r in rows], la, ca), expected_rows([r[1] for r in rows], lb, cb)])
+    try:
+        got = dense(model_matrix("C(A, p) + C(B, p)", df, context={"p": con}, output=output))
+    except Exception as e:  # noqa
+        rep(False, "instance-history", "model_matrix raised %s: %s" % (type(e).__name__, str(e)[:160]))
+        return
+    tol = TOL if spec["kind"] == "poly" else TOL_EXACT
+    rep(got.shape == want.shape and close(got, want, tol), "instance-history",
+        "model matrix != [1 | indicator(A) x coding(%d) | indicator(B) x coding(%d)]" % (na, nb), got=got.tolist(), want=want.tolist())
+
+
 ENC_CONTAINERS = ["object", "ndarray", "cat", "cat-rev", "cat-super"]
 FRM_CONTAINERS = ["object", "cat", "cat-rev", "cat-super"]
 CONTAINER_DOC = ("object-dtype Series x every contrast option; object ndarray (encode only) and categorical dtype with sorted / "
@@ -673,6 +770,12 @@ def subchecks(tier, seed):
         Sub("matrices", drv_matrices, {"nmax": nmax}, shard_depth=3,
             bounds={"levels": "1..%d" % nmax, "label_types": ["str a,b,..", "int -10,0,5,15.. ([0,5] for n=2)", "unsorted str with the empty string", "bool (n <= 2)"], "entry": ["Contrasts", "ContrastsState"],
                     "poly_scores": [None] + SCORE_KINDS}),
+        Sub("instance-history", drv_instance_history, {"D": 2 if quick else 3, "ns": [1, 2, 3, 5] if quick else [1, 2, 3, 4, 6]}, shard_depth=3,
+            bounds={"contrasts": [render(s_, list("abcdefgh")) for s_ in HIST_SPECS], "operations": HIST_OPS, "level_counts": [1, 2, 3, 5] if quick else [1, 2, 3, 4, 6],
+                    "history_length": "2" if quick else "2..3", "oracle": "every step == reference (what a fresh instance returns)"}),
+        Sub("shared-instance-formula", drv_shared_instance_formula, {"nmax": 4 if quick else 5}, shard_depth=2,
+            bounds={"formula": "C(A, p) + C(B, p) with one contrast object p in the context", "levels_A": "1..%d" % (4 if quick else 5),
+                    "levels_B": "1..%d" % (4 if quick else 5), "outputs": ["pandas", "sparse"]}),
         Sub("encode", drv_encode, {"L_by_n": enc_L, "thin_from": enc_thin, "containers": ENC_CONTAINERS}, shard_depth=6,
             bounds={"declared_levels": "1..4", "max_data_length_by_declared_levels": enc_L, "alphabet": alpha,
                     "outputs": ["pandas", "numpy", "sparse"], "reduced_rank": [True, False], "containers": CONTAINER_DOC,
